@@ -357,6 +357,8 @@ def op_text(op):
     if f == 8:
         return "destroy(%d)" % o
     if f == 9:
+        if op[3] == 9:
+            return "alias(%d,field%d,of object %d)" % (o, op[2], op[4])
         return "borrow(%d,field%d,%s)" % (o, op[2], s(3))
     return "?"
 
